@@ -11,6 +11,7 @@ import Gecs.Model.World
 import Gecs.Model.Query
 import Gecs.Model.Macro
 import Gecs.Model.Check
+import Gecs.Model.Events
 
 namespace Gecs.Driver
 open Gecs
@@ -268,13 +269,17 @@ def eventsStr (d : DS) (w : World Val) : String :=
     let id := d.ids.getD a 0
     let f (l : List Ent) := joinWith "," (l.map (fun e => fmtKey (mkKey e.slot id e.ver)))
     s!"c{a}=[{f s.created}] d{a}=[{f s.destroyed}]")
-  let allOf (sel : Storage Val → List Ent) : List String :=
-    ((List.range w.archs.length).zip w.archs).flatMap (fun (a, s) =>
-      (sel s).map (fun e => fmtKey (mkKey e.slot (d.ids.getD a 0) e.ver)))
-  let hints (n : Nat) : String := joinWith "," ((List.range (n + 1)).reverse.map toString)
-  let wc := allOf (·.created)
-  let wd := allOf (·.destroyed)
-  joinWith " " per ++ s!" wc=[{joinWith "," wc}] wch=[{hints wc.length}] wd=[{joinWith "," wd}] wdh=[{hints wd.length}]"
+  -- the world-level iterators are run as the generated state machine (Model/Events.lean)
+  let walk (logs : List (List Key)) : String × String :=
+    let r := EvIter.drain (logs.flatten.length + 1) (EvIter.start logs)
+    let hint (h : Nat × Option Nat) : String :=
+      match h with
+      | (lo, some hi) => if lo == hi then toString lo else s!"{lo}..{hi}"
+      | (lo, none) => s!"{lo}.."
+    (joinWith "," (r.1.map fmtKey), joinWith "," (r.2.map hint))
+  let (wc, wch) := walk w.createdLogs
+  let (wd, wdh) := walk w.destroyedLogs
+  joinWith " " per ++ s!" wc=[{wc}] wch=[{wch}] wd=[{wd}] wdh=[{wdh}]"
 
 def dumpStr (id : Nat) (s : Storage Val) : String :=
   let sl := joinWith "," (s.slots.map (fun x => s!"{encodeIdx x.idx}.{x.ver}"))
